@@ -93,7 +93,7 @@ func (o ofDump[V]) dump(w *bytes.Buffer) (int, error)    { return o.c.Dump(w) }
 func (o ofDump[V]) restore(r *bytes.Buffer) (int, error) { return o.c.Restore(r) }
 func (o ofDump[V]) read(key []byte) (interface{}, error) { return o.c.Read(bg, key) }
 func (o ofDump[V]) close()                               { o.c.VerifClose() }
-func (o ofDump[V]) wdr() cache.WalkDumpRestorer           { return o.c.WalkDumpRestorer() }
+func (o ofDump[V]) wdr() cache.WalkDumpRestorer          { return o.c.WalkDumpRestorer() }
 
 var dumpCfg = cache.Config{
 	TimeToLive: cache.UnlimitedTTL, ExpirationJitter: -1,
@@ -101,17 +101,42 @@ var dumpCfg = cache.Config{
 }
 
 func newDumpCache(c *Case, family string) dumpCache {
+	return newDumpCacheCfg(c, family, dumpCfg)
+}
+
+// drawTargetCfg draws the configuration of a cache that receives a dump: the round trip must not
+// depend on it (the receiving side's TimeToLive and jitter apply to new writes only).
+func drawTargetCfg(c *Case) cache.Config {
+	cfg := dumpCfg
+
+	switch c.Weighted("target-ttl", 2, 1, 1) {
+	case 1:
+		cfg.TimeToLive = 0 // library default, 5 minutes
+		c.Class("target-finite-ttl")
+	case 2:
+		cfg.TimeToLive = time.Hour
+		c.Class("target-finite-ttl")
+	}
+
+	if c.Weighted("target-jitter", 2, 1) == 1 {
+		cfg.ExpirationJitter = 0.5
+	}
+
+	return cfg
+}
+
+func newDumpCacheCfg(c *Case, family string, cfg cache.Config) dumpCache {
 	var d dumpCache
 
 	switch family {
 	case kindSharded, kindSync:
-		d = plainDump{be: newBackend(family, dumpCfg)}
+		d = plainDump{be: newBackend(family, cfg)}
 	case "Of[int]":
-		d = ofDump[int]{c: cache.NewShardedMapOf[int](dumpCfg.Use), name: family}
+		d = ofDump[int]{c: cache.NewShardedMapOf[int](cfg.Use), name: family}
 	case "Of[string]":
-		d = ofDump[string]{c: cache.NewShardedMapOf[string](dumpCfg.Use), name: family}
+		d = ofDump[string]{c: cache.NewShardedMapOf[string](cfg.Use), name: family}
 	case "Of[struct]":
-		d = ofDump[dumpVal]{c: cache.NewShardedMapOf[dumpVal](dumpCfg.Use), name: family}
+		d = ofDump[dumpVal]{c: cache.NewShardedMapOf[dumpVal](cfg.Use), name: family}
 	default:
 		panic(family)
 	}
@@ -304,7 +329,7 @@ func fillAndTransfer(c *Case, chain []string, transfer func(src, dst dumpCache, 
 	cur := src
 
 	for h := 1; h < len(chain); h++ {
-		dst := newDumpCache(c, chain[h])
+		dst := newDumpCacheCfg(c, chain[h], drawTargetCfg(c))
 
 		if transfer != nil {
 			transfer(cur, dst, n)
